@@ -27,6 +27,8 @@ pub struct UnspentCsvDump {
 
 impl UnspentCsvDump {
     fn create_writer(cap: usize, path: PathBuf) -> Result<BufWriter<File>> {
+        #[cfg(rbp_verif)]
+        crate::verif::ev("tmp_create", &format!("\"file\":{}", crate::verif::js(path.file_name().unwrap().to_str().unwrap())));
         Ok(BufWriter::with_capacity(cap, File::create(path)?))
     }
 }
@@ -112,6 +114,8 @@ impl Callback for UnspentCsvDump {
             )?;
         }
 
+        #[cfg(rbp_verif)]
+        crate::verif::ev("rename", &format!("\"file\":\"unspent.csv.tmp\",\"to\":\"unspent-{}-{}.csv\",\"buffered\":{}", self.start_height, block_height, self.writer.buffer().len()));
         fs::rename(
             self.dump_folder.as_path().join("unspent.csv.tmp"),
             self.dump_folder.as_path().join(format!(
@@ -119,6 +123,8 @@ impl Callback for UnspentCsvDump {
                 self.start_height, block_height
             )),
         )?;
+        #[cfg(rbp_verif)]
+        crate::verif::ev("renamed", "\"file\":\"unspent.csv.tmp\"");
 
         info!(target: "callback", "Done.\nDumped blocks from height {} to {}:\n\
                                    \t-> transactions: {:9}\n\
